@@ -145,6 +145,14 @@ class World(object):
             self.delivered.update(ev[1:])
         elif kind == 'unsol':
             self.p.dataReceived(self.unsolicited())
+        elif kind == 'urep':
+            # an unsolicited frame and, right behind it in the same read, the reply of a pending request
+            self.p.dataReceived(self.unsolicited() + self.reply(ev[1]))
+            self.delivered.add(ev[1])
+        elif kind == 'jrep':
+            # an MBAP header announcing no PDU at all (length 0) in front of the reply, in the same read
+            self.p.dataReceived(b'\x77\x70\x00\x00\x00\x00' + self.reply(ev[1]))
+            self.delivered.add(ev[1])
         elif kind in ('rh', 'uh'):
             # the first bytes of a frame arrive in one read, the rest in a later one
             frame = self.reply(ev[1]) if kind == 'rh' else self.unsolicited()
@@ -220,6 +228,9 @@ def menu(w, max_out, max_req):
                 ev.append(('uh',))
             for i in out:
                 ev.append(('rep', i))
+            for i in out[:1]:
+                ev.append(('urep', i))
+                ev.append(('jrep', i))
             for i in out:
                 for j in out:
                     if i != j:
@@ -267,7 +278,7 @@ def check(acc, w, hist, cfgname, units_class):
                 bad('wrong-reply', 'request %d (id %r) was completed with reply id %r registers %r' % (i, r['wire_tid'], e[1], e[2]))
         if oks and i not in w.delivered:
             bad('wrong-reply', 'request %d completed although its reply was never delivered' % i)
-        just = hist and ((hist[-1][0] in ('rep', 'rep2', 'dup') and i in hist[-1][1:]) or (hist[-1][0] == 'tail' and i in w.delivered and w.last_tail == i))
+        just = hist and ((hist[-1][0] in ('rep', 'rep2', 'dup', 'urep', 'jrep') and i in hist[-1][1:]) or (hist[-1][0] == 'tail' and i in w.delivered and w.last_tail == i))
         if just and i in w.delivered and not r['events'] and not r['after_loss'] and w.connected:
             bad('lost-deferred', 'the reply of request %d was delivered but its deferred never fired' % i)
         if not w.connected and not r['events']:
